@@ -428,7 +428,9 @@ class HistGen:
         amt = rng.choice([1, bal, rng.randrange(1, bal + 1)])
         if burn:
             return w.op_lp_burn(actor, p, amt), []
-        return w.op_lp_transfer(actor, p, rng.choice([a for a in ACTORS if a != actor]), amt), []
+        # plain LP transfers, also to the pair itself / the router / the LP token (stray LP parked on contracts)
+        to = rng.choice([a for a in ACTORS if a != actor] + [p.addr, p.addr, w.router, p.lp])
+        return w.op_lp_transfer(actor, p, to, amt), []
 
     def g_unauth(self):
         """Privileged / internal messages from non-authorised callers inside ordinary histories."""
